@@ -61,7 +61,7 @@ var (
 
 func main() {
 	run = h.NewRun(prop, "exploration")
-	run.Rule = "one real frps per case with a PRNG-chosen chain of 0-4 HTTP plugins (ops subset and per-(plugin,op) outcome from {accept, modify, reject, HTTP 500/404, connection reset, malformed JSON, empty body, reject-with-content}); the scripted client performs login, registration, ping, a user connection (NewUserConn + NewWorkConn), explicit close and session end; distinct = distinct (ops subsets, outcome table) of the chain"
+	run.Rule = "one real frps per case with a PRNG-chosen chain of 0-4 HTTP plugins (ops subset and per-(plugin,op) outcome from {accept, modify, reject, HTTP 500/404, connection reset, malformed JSON, empty body, reject-with-content}); the scripted client performs login, registration, ping, a user connection (NewUserConn + NewWorkConn), explicit close and session end; scoped cases (HeartBeats + NewWorkConns scopes, heartbeatTimeout 3 s): pings and work connections whose key a plugin invalidates or repairs, and sessions whose pings the chain refuses (must die heartbeatTimeout after the last accepted ping); distinct = distinct (ops subsets, outcome table) of the chain"
 	run.Assumptions = []string{
 		"a 200 answer that parses as JSON without 'reject' and without 'unchange' is 'accepted with (possibly empty) modified content' — the stubs always echo the full received content with their edits applied",
 		"calls of one operation are grouped by the X-Frp-Reqid header the server sends to every plugin of one chain invocation",
@@ -73,10 +73,20 @@ func main() {
 		fmt.Fprintln(os.Stderr, err)
 		os.Exit(h.ExitHarnessError)
 	}
-	go http.Serve(stubLn, http.HandlerFunc(stub))
+	go http.Serve(stubLn, http.HandlerFunc(func(w http.ResponseWriter, r *http.Request) {
+		if strings.HasPrefix(r.URL.Path, "/s") {
+			stubScoped(w, r)
+			return
+		}
+		stub(w, r)
+	}))
 
 	n := run.N(300, 4000)
+	var wgScoped sync.WaitGroup
+	wgScoped.Add(1)
+	go func() { defer wgScoped.Done(); run.ParallelRange(5000000, run.N(16, 240), 8, scopedCase) }()
 	run.Parallel(n, 32, oneCase)
+	wgScoped.Wait()
 	run.Finish(50)
 }
 
